@@ -575,3 +575,208 @@ Proof.
     + rewrite (b_drop_rep _ _ Hrep). apply post_set; auto; [exact I | apply cloned_drops |].
       intro i. rewrite Eg, accounted_drops. cbn [obj_ids step_leak]. rewrite (b_rep_ids _ _ Hrep), !occ_nil. lia.
 Qed.
+
+Lemma step_post_world_ok w o w' ev : world_ok w -> step_post w o w' ev -> world_ok w'.
+Proof.
+  intros Hok [Hall' [Hle [Heq _]]].
+  destruct (ids_ok_from_equation w (world_ids w') (w_next w') Hok Hle) as [Hnd Hlt].
+  - intro i. specialize (Heq i). lia.
+  - unfold world_ok. auto.
+Qed.
+
+(* ------------------------------------------------------------------ whole histories *)
+
+(** replay of a history: the identities leaked by explicit forgets, and those created by
+    pushes (the ledger has no event for either) *)
+Fixpoint leaked (w : world) (ops : list op) : list Z :=
+  match ops with
+  | [] => []
+  | o :: r => match step w o with
+              | StepOk w' _ _ => step_leak w o ++ leaked w' r
+              | _ => []
+              end
+  end.
+Fixpoint pushed (w : world) (ops : list op) : list Z :=
+  match ops with
+  | [] => []
+  | o :: r => match step w o with
+              | StepOk w' _ _ => step_pushed w o ++ pushed w' r
+              | _ => []
+              end
+  end.
+
+Definition evs (os : list obs) : list event :=
+  flat_map (fun o : ret * view * list event => snd o) os.
+
+Lemma evs_lt n0 n ids0 ev :
+  (n0 <= n)%Z -> (forall i, In i ids0 -> (i < n0)%Z) ->
+  (forall i, occ ids0 i + between n0 n i >= occ (accounted ev) i) ->
+  (forall i, between n0 n i >= occ (cloned ev) i) ->
+  forall i, In i (accounted ev) \/ In i (cloned ev) -> (i < n)%Z.
+Proof.
+  intros Hle Hlt Ha Hc i [Hi | Hi]; apply occ_In in Hi.
+  - specialize (Ha i). destruct (Nat.eq_dec (occ ids0 i) 0) as [E | E].
+    + assert (H : between n0 n i > 0) by lia. apply between_pos in H. lia.
+    + assert (Hin : In i ids0) by (apply occ_In; lia). apply Hlt in Hin. lia.
+  - specialize (Hc i). assert (H : between n0 n i > 0) by lia. apply between_pos in H. lia.
+Qed.
+
+(** the invariant carried along a whole history *)
+Lemma run_inv : forall ops w0, world_ok w0 ->
+  match run w0 ops with
+  | RunUB => False
+  | RunInvalid => True
+  | RunOk w os =>
+      world_ok w /\ (w_next w0 <= w_next w)%Z /\
+      (forall i, occ (world_ids w0) i + between (w_next w0) (w_next w) i
+                 = occ (accounted (evs os)) i + occ (world_ids w) i + occ (leaked w0 ops) i) /\
+      (forall i, between (w_next w0) (w_next w) i
+                 = occ (cloned (evs os)) i + occ (pushed w0 ops) i) /\
+      fresh_tr (w_next w0) (evs os)
+  end.
+Proof.
+  induction ops as [|o r IH]; intros w0 Hok; cbn [run leaked pushed].
+  - cbn [evs flat_map accounted cloned fresh_tr]. splits; auto; try lia.
+    + intro i. rewrite between_empty, !occ_nil. lia.
+    + intro i. rewrite between_empty, !occ_nil. lia.
+  - pose proof (step_ok w0 o Hok) as Hs. destruct (step w0 o) as [w1 rt ev| |]; try assumption.
+    pose proof (step_post_world_ok _ _ _ _ Hok Hs) as Hok1.
+    destruct Hs as [Hall1 [Hle1 [Heq1 [Hcl1 Hfr1]]]].
+    pose proof (obj_ok_view _ (get_obj_ok w1 (op_target o) Hall1)) as Hv.
+    destruct (obj_view (get_obj w1 (op_target o))) as [sl|]; [|congruence].
+    specialize (IH w1 Hok1). destruct (run w1 r) as [w os| |]; try assumption.
+    destruct IH as [Hokw [Hle [Heq [Hcl Hfr]]]].
+    unfold evs in *. cbn [flat_map snd]. splits.
+    + assumption.
+    + lia.
+    + intro i. rewrite accounted_app, !occ_app, (between_split _ (w_next w1)) by lia.
+      specialize (Heq1 i). specialize (Heq i). lia.
+    + intro i. rewrite cloned_app, !occ_app, (between_split _ (w_next w1)) by lia.
+      specialize (Hcl1 i). specialize (Hcl i). lia.
+    + apply (fresh_tr_app ev (w_next w0) (w_next w1)); auto.
+      destruct Hok as [_ [_ Hlt0]].
+      apply (evs_lt (w_next w0) (w_next w1) (world_ids w0)); auto.
+      * intro i. specialize (Heq1 i). lia.
+      * intro i. specialize (Hcl1 i). lia.
+Qed.
+
+(** no history from a well-formed table reads a moved-out or unwritten slot, the table is
+    well-formed at the end, and the final drop of everything destroys exactly what it owns *)
+Theorem history_no_ub : forall ops w0, world_ok w0 ->
+  run w0 ops <> RunUB /\
+  forall w os, run w0 ops = RunOk w os ->
+    world_ok w /\ drop_all (w_objs w) = Some (map Drop (world_ids w)).
+Proof.
+  intros ops w0 Hok. pose proof (run_inv ops w0 Hok) as H. split.
+  - intro E. now rewrite E in H.
+  - intros w os E. rewrite E in H. destruct H as [Hw _]. split; [assumption|].
+    apply drop_all_ok. now destruct Hw.
+Qed.
+
+Section History.
+  Variables (w0 w : world) (ops : list op) (os : list obs) (fin : list event).
+  Hypothesis Hok : world_ok w0.
+  Hypothesis Hrun : run w0 ops = RunOk w os.
+  Hypothesis Hfin : drop_all (w_objs w) = Some fin.
+
+  Let ev := all_events os fin.
+
+  Lemma history_facts :
+    (w_next w0 <= w_next w)%Z /\
+    (forall i, occ (accounted ev) i + occ (leaked w0 ops) i
+               = occ (world_ids w0) i + between (w_next w0) (w_next w) i) /\
+    (forall i, between (w_next w0) (w_next w) i = occ (cloned ev) i + occ (pushed w0 ops) i) /\
+    fresh_tr (w_next w0) ev.
+  Proof.
+    pose proof (run_inv ops w0 Hok) as H. rewrite Hrun in H.
+    destruct H as [Hw [Hle [Heq [Hcl Hfr]]]].
+    assert (fin = map Drop (world_ids w)) as ->.
+    { destruct Hw as [Hall _]. pose proof Hfin as Hf. rewrite (drop_all_ok _ Hall) in Hf.
+      unfold world_ids. congruence. }
+    subst ev. unfold all_events, evs in *. splits.
+    - assumption.
+    - intro i. rewrite accounted_app, accounted_drops, occ_app. specialize (Heq i). lia.
+    - intro i. rewrite cloned_app, cloned_drops, app_nil_r. apply Hcl.
+    - apply (fresh_tr_app _ (w_next w0) (w_next w)); auto.
+      + destruct Hok as [_ [_ Hlt0]].
+        apply (evs_lt (w_next w0) (w_next w) (world_ids w0)); auto.
+        * intro i. specialize (Heq i). lia.
+        * intro i. specialize (Hcl i). lia.
+      + apply fresh_tr_no_clone, cloned_drops.
+  Qed.
+
+  (** the identities ever created: initial, pushed, cloned — pairwise distinct *)
+  Definition created : list Z := world_ids w0 ++ pushed w0 ops ++ cloned ev.
+
+  Lemma occ_created i : occ created i = occ (world_ids w0) i + between (w_next w0) (w_next w) i.
+  Proof.
+    destruct history_facts as [_ [_ [Hcl _]]]. unfold created. rewrite !occ_app, (Hcl i). lia.
+  Qed.
+
+  Theorem history_created_distinct : NoDup created.
+  Proof.
+    apply occ_NoDup. intro i. rewrite occ_created.
+    destruct Hok as [_ [Hnd Hlt]].
+    pose proof (proj1 (occ_NoDup _) Hnd i) as H1. pose proof (between_le (w_next w0) (w_next w) i) as H2.
+    destruct (Nat.eq_dec (occ (world_ids w0) i) 0) as [E | E]; [lia|].
+    assert (Hin : In i (world_ids w0)) by (apply occ_In; lia). apply Hlt in Hin.
+    assert (between (w_next w0) (w_next w) i = 0) by (apply between_zero; lia). lia.
+  Qed.
+
+  (** THE history theorem: at the end of every history that drops everything, the
+      identities handed over or dropped, together with those leaked by an explicit
+      [forget], are exactly the identities ever created, each exactly once *)
+  Theorem history_exactly_once : Permutation (accounted ev ++ leaked w0 ops) created.
+  Proof.
+    apply occ_Permutation. intro i. rewrite occ_app, occ_created.
+    destruct history_facts as [_ [Heq _]]. apply Heq.
+  Qed.
+
+  Theorem history_exactly_once_count : forall i,
+    (In i created -> occ (accounted ev) i + occ (leaked w0 ops) i = 1) /\
+    (~ In i created -> occ (accounted ev) i + occ (leaked w0 ops) i = 0).
+  Proof.
+    intro i. pose proof (proj1 (occ_Permutation _ _) history_exactly_once i) as H.
+    rewrite occ_app in H. split; intro Hin.
+    - pose proof (proj1 (occ_NoDup _) history_created_distinct i). apply occ_In in Hin. lia.
+    - apply occ_not_In in Hin. lia.
+  Qed.
+
+  (** without [forget] nothing is leaked: handed-or-dropped = created, no duplicates *)
+  Theorem history_exactly_once_no_forget :
+    (forall k, ~ In (OForget k) ops) ->
+    leaked w0 ops = [] /\ NoDup (accounted ev) /\ Permutation (accounted ev) created.
+  Proof.
+    intro Hnf.
+    assert (Hl : forall ops' w', (forall k, ~ In (OForget k) ops') -> leaked w' ops' = []).
+    { induction ops' as [|o r IH]; intros w' H; cbn [leaked]; [reflexivity|].
+      destruct (step w' o) as [w1 rt e| |]; try reflexivity.
+      rewrite IH by (intros k Hk; apply (H k); now right).
+      destruct o; try reflexivity. exfalso. apply (H k). now left. }
+    pose proof history_exactly_once as P. rewrite (Hl ops w0 Hnf), app_nil_r in P.
+    splits; [now apply Hl | | exact P].
+    apply (Permutation_NoDup (Permutation_sym P)), history_created_distinct.
+  Qed.
+
+  (** clone identities are fresh: the identity returned by a [T::clone] lies in the range
+      of the counter, is none of the initial or pushed identities, and has not been handed
+      over, dropped or produced by an earlier clone *)
+  Theorem history_clone_ids_fresh : forall pre s n post,
+    ev = pre ++ Cl s n :: post ->
+    (w_next w0 <= n < w_next w)%Z /\
+    ~ In n (world_ids w0) /\ ~ In n (pushed w0 ops) /\
+    ~ In n (accounted pre) /\ ~ In n (cloned pre) /\ ~ In n (cloned post).
+  Proof.
+    intros pre s n post E.
+    destruct history_facts as [Hle [Heq [Hcl Hfr]]].
+    rewrite E in Hfr. apply fresh_tr_split in Hfr. destruct Hfr as [Hge [Hna Hnc]].
+    pose proof (proj1 (occ_NoDup _) history_created_distinct n) as Hd.
+    unfold created in Hd. rewrite !occ_app, E, cloned_app in Hd. cbn [cloned] in Hd.
+    rewrite occ_app, (occ_cons n) in Hd.
+    assert (H1 : occ [n] n = 1) by (rewrite occ_one_eq; destruct (Z.eq_dec n n); congruence).
+    assert (Hb : between (w_next w0) (w_next w) n > 0).
+    { rewrite (Hcl n), E, cloned_app. cbn [cloned]. rewrite occ_app, (occ_cons n). lia. }
+    apply between_pos in Hb.
+    splits; try assumption; try lia; apply occ_not_In; lia.
+  Qed.
+End History.
